@@ -85,7 +85,7 @@ func checkC16(c *core.Ctx, l *core.Ledger) {
 				}
 			}
 			eq := func(field string, other func(ssa.Value) bool) bool {
-				edges := core.GuardEdges(nth, func(cm core.Cmp) bool {
+				edges := core.GuardEdgesDeep(nth, func(cm core.Cmp) bool {
 					if cm.Op != token.EQL {
 						return false
 					}
@@ -98,7 +98,7 @@ func checkC16(c *core.Ctx, l *core.Ledger) {
 						return true
 					}
 					return false
-				})
+				}, 2)
 				return core.AllPathsThroughEdges(nth, a.Block(), edges)
 			}
 			if !eq("Name", func(v ssa.Value) bool { _, ok := v.(*ssa.Parameter); return ok }) {
@@ -379,26 +379,29 @@ func checkC16(c *core.Ctx, l *core.Ledger) {
 		l.Check(ok && n == 2 && pre, "FRAMES", "Writer.Write:layout", c.Rel(f.Pos()), "4-byte big-endian length of the payload, then the whole payload", "frame writer does not emit (be32 len, payload) with full-buffer writes")
 	}
 	if f := c.SSAFunc(c.LookupFunc("internal/frame", "Reader.Read")); f != nil {
-		var fns []*ssa.Function
-		fns = append(fns, f)
-		if g := c.SSAFunc(c.LookupFunc("internal/frame", "Reader.readFastPath")); g != nil {
-			fns = append(fns, g)
-		}
 		full := 0
 		be := false
-		for _, fn := range fns {
-			core.Instrs(fn, func(in ssa.Instruction) {
-				if core.IsCallTo(in, "io", "ReadFull") || core.IsCallTo(in, "io", "CopyN") {
-					full++
+		partial := ""
+		// Read and whatever helpers of the package it delegates to
+		core.WalkInlined(f, inlineHelpers(), func(in ssa.Instruction, via []*ssa.Call) {
+			if core.IsCallTo(in, "io", "ReadFull") || core.IsCallTo(in, "io", "CopyN") {
+				full++
+			}
+			if core.IsCallTo(in, "io", "ReadAtLeast") {
+				args := in.(ssa.CallInstruction).Common().Args
+				if core.Sym(args[2]) == "len("+core.Sym(args[1])+")" {
+					full++ // ReadAtLeast(r, b, len(b)) is ReadFull
+				} else {
+					partial = "io.ReadAtLeast with a minimum below the buffer length at " + c.Rel(in.Pos())
 				}
-				if call, isC := in.(*ssa.Call); isC {
-					if o, bits, put, okE := endianOf(call.Call.StaticCallee()); okE && !put && o == "be" && bits == 32 {
-						be = true
-					}
+			}
+			if call, isC := in.(*ssa.Call); isC {
+				if o, bits, put, okE := endianOf(call.Call.StaticCallee()); okE && !put && o == "be" && bits == 32 {
+					be = true
 				}
-			})
-		}
-		l.Check(full >= 3 && be, "FRAMES", "Reader.Read:layout", c.Rel(f.Pos()), "length prefix and payload are read with ReadFull/CopyN; the prefix is a big-endian uint32", "frame reader does not read (be32 len, payload) with full reads")
+			}
+		})
+		l.Check(full >= 3 && be && partial == "", "FRAMES", "Reader.Read:layout", c.Rel(f.Pos()), "length prefix and payload are read with ReadFull/CopyN; the prefix is a big-endian uint32", "frame reader does not read (be32 len, payload) with full reads "+partial)
 	}
 	checkNoRawRead(c, l, "FRAMES-FULLREAD", []string{"internal/frame"})
 	if f := c.SSAFunc(c.LookupFunc("internal/frame", "Server.Serve")); f != nil {
